@@ -261,7 +261,9 @@ def bfs(model, depth):
 
 # ---------------------------------------------------------------- value laws
 PATTERNS = ['p', 'p.a > b', '*', '#i', '[t=v]', '[t="v" i]', 'a, b', ':not(a, b)', ':is(a > b)', ':has(> a)', ':nth-child(2n+1)', ':nth-child(2 of a)', ':nth-last-child(2)', ':nth-of-type(2)', ':nth-last-of-type(-n+3)', ':only-child', ':last-of-type', ':-soup-contains-own("y")', ':has(+ a, > b)', '[t|=v s]',
-            ':lang(en)', ':dir(ltr)', ':-soup-contains("x")', ':root', 'x|a', '[x|t]', ':checked', ':in-range', 'a b', 'a  b', 'A', ':hover', ':is()']
+            ':lang(en)', ':dir(ltr)', ':-soup-contains("x")', ':root', 'x|a', '[x|t]', ':checked', ':in-range', 'a b', 'a  b', 'A', ':hover', ':is()',
+            # different texts that the parser reads alike (preprocessing, escapes, padding, comments): the objects differ because their patterns differ
+            'a\x00', 'a\ufffd', '\\61 ', ' a', 'a ', 'a/**/', '[t=\'v\']', '[t=v ]']
 NSS = [None, {}, {'x': 'u'}, {'x': 'u', 'y': 'v'}, {'y': 'v', 'x': 'u'}, {'x': 'U'}]
 CUSTOMS = [None, {}, {':--c': 'a'}, {':--c': 'a', ':--d': 'b'}, {':--d': 'b', ':--c': 'a'}]
 
@@ -477,6 +479,10 @@ def run_values(sv, tier, i, n, res):
         run_map_laws(sv, res)
     for a in range(i, len(ts), n):
         ca, ka = objs[a], ckey(ts[a])
+        res.evaluations += 1
+        if ca.pattern != ts[a][0] or ca.flags != ts[a][3]:
+            res.fail({'layer': 'pattern-attr', 'a': list(map(repr, ts[a])), 'ia': a, 'tier': tier}, {'kind': 'recorded-arguments-differ', 'what': 'pattern' if ca.pattern != ts[a][0] else 'flags'},
+                     f'compile{ts[a]!r}: the object records pattern {ca.pattern!r} / flags {ca.flags!r}, not the arguments it was compiled from')
         for b in range(len(ts)):
             cb, kb = objs[b], ckey(ts[b])
             res.evaluations += 1
@@ -491,11 +497,20 @@ def run_values(sv, tier, i, n, res):
                     res.fail({'layer': 'pair', 'a': list(map(repr, ts[a])), 'b': list(map(repr, ts[b])), 'ia': a, 'ib': b, 'tier': tier},
                              {'kind': 'equal-but-different-hash'}, f'compile{ts[a]!r} == compile{ts[b]!r} but their hashes differ')
         # round trips
-        clones = [('copy', copy.copy(ca)), ('deepcopy', copy.deepcopy(ca))] + [('pickle%d' % p, pickle.loads(pickle.dumps(ca, p))) for p in range(0, pickle.HIGHEST_PROTOCOL + 1)]
-        for how, cl in clones:
+        makers = [('copy', lambda: copy.copy(ca)), ('deepcopy', lambda: copy.deepcopy(ca))] + \
+                 [('pickle%d' % p, lambda p=p: pickle.loads(pickle.dumps(ca, p))) for p in range(0, pickle.HIGHEST_PROTOCOL + 1)]
+        clones = []
+        for how, mk in makers:
+            try:
+                clones.append((how, mk(), None))
+            except Exception as e:
+                clones.append((how, None, f'raises {type(e).__name__}: {str(e)[:120]}'))
+        for how, cl, err in clones:
             res.evaluations += 1
-            why = None
-            if not (cl == ca) or cl != ca:
+            why = err
+            if why:
+                pass
+            elif not (cl == ca) or cl != ca:
                 why = 'clone is not equal to the original'
             elif hash(cl) != hash(ca):
                 why = 'clone hashes differently'
@@ -511,7 +526,7 @@ def run_values(sv, tier, i, n, res):
                             why = 'clone selects different elements'
             if why:
                 res.fail({'layer': 'clone', 'a': list(map(repr, ts[a])), 'ia': a, 'how': how, 'tier': tier},
-                         {'kind': 'round-trip', 'how': 'pickle' if how.startswith('pickle') else how, 'what': why,
+                         {'kind': 'round-trip', 'how': 'pickle' if how.startswith('pickle') else how, 'what': why.split(':')[0],
                           'maps': ts[a][1] is not None or ts[a][2] is not None}, f'{how} of compile{ts[a]!r}: {why}')
             else:
                 res.outcome('round-trip-ok')
